@@ -52,66 +52,7 @@ VARIABLES m,        \* working map
 
 svars == <<m, v1, mixed, db, root, cm, persisted, ncommit, hist, done>>
 
---------------------------------------------------------------------------
-(* ---- what a commit must make readable ---------------------------------- *)
-
-Rows(mm, ver) == StoredNodes(mm, ver) \cup {mm[k] : k \in {x \in DOMAIN mm : ValueHashed(mm[x], ver)}}
-
---------------------------------------------------------------------------
-(* ---- reading by walking the blobs -------------------------------------- *)
-
-Has(d, h) == \E x \in d : H(x) = h
-Fetch(d, h) == CHOOSE x \in d : H(x) = h
-
-Found(v) == [st |-> "found", v |-> v]
-Absent == [st |-> "absent", v |-> <<>>]
-Broken == [st |-> "broken", v |-> <<>>]
-
-ValueOf(d, val) ==
-  CASE val.t = "inline" -> Found(val.b)
-    [] val.t = "hashed" -> (IF Has(d, val.b) THEN Found(Fetch(d, val.b)) ELSE Broken)
-    [] OTHER -> Absent
-
-(* single-key read starting at the node encoding enc with remaining nibbles nk *)
-RECURSIVE LookupAt(_, _, _)
-LookupAt(d, enc, nk) ==
-  LET dec == DecN(enc) IN
-  IF ~dec.ok THEN Broken
-  ELSE LET n == dec.node IN
-    IF n.kind = "empty" THEN Absent
-    ELSE IF n.kind = "leaf" THEN (IF n.pk = nk THEN ValueOf(d, n.val) ELSE Absent)
-    ELSE IF n.pk = nk THEN ValueOf(d, n.val)
-    ELSE IF IsPrefixOf(n.pk, nk) /\ Len(nk) > Len(n.pk)
-    THEN LET kid == n.kids[nk[Len(n.pk) + 1]]
-             rest == Drop(nk, Len(n.pk) + 1)
-         IN CASE kid.t = "inline" -> LookupAt(d, kid.b, rest)
-              [] kid.t = "hash" -> (IF Has(d, kid.b) THEN LookupAt(d, Fetch(d, kid.b), rest) ELSE Broken)
-              [] OTHER -> Absent
-    ELSE Absent
-
-Lookup(d, r, k) == IF Has(d, r) THEN LookupAt(d, Fetch(d, r), KeyToNibbles(k)) ELSE Broken
-
-(* whole-state read: the set of <<nibble key, value>> reachable from enc *)
-BrokenL == [ok |-> FALSE, kv |-> {}]
-RECURSIVE LoadAt(_, _, _)
-LoadAt(d, enc, prefix) ==
-  LET dec == DecN(enc) IN
-  IF ~dec.ok THEN BrokenL
-  ELSE LET n == dec.node IN
-    IF n.kind = "empty" THEN [ok |-> TRUE, kv |-> {}]
-    ELSE LET here == prefix \o n.pk
-             v == ValueOf(d, n.val)
-             own == IF v.st = "found" THEN {<<here, v.v>>} ELSE {}
-             Kid(c) == CASE n.kids[c].t = "inline" -> LoadAt(d, n.kids[c].b, here \o <<c>>)
-                         [] n.kids[c].t = "hash" ->
-                              (IF Has(d, n.kids[c].b) THEN LoadAt(d, Fetch(d, n.kids[c].b), here \o <<c>>) ELSE BrokenL)
-                         [] OTHER -> [ok |-> TRUE, kv |-> {}]
-         IN IF v.st = "broken" \/ \E c \in 0..15 : ~Kid(c).ok THEN BrokenL
-            ELSE [ok |-> TRUE, kv |-> own \cup UNION {Kid(c).kv : c \in 0..15}]
-
-LoadEntries(d, r) == IF Has(d, r) THEN LoadAt(d, Fetch(d, r), <<>>) ELSE BrokenL
-
-MapKV(mm) == {<<KeyToNibbles(k), mm[k]>> : k \in DOMAIN mm}
+(* Rows, Has, Fetch, Lookup, LoadEntries, MapKV: pure operators, see TrieCodec. *)
 
 --------------------------------------------------------------------------
 (* ---- operations --------------------------------------------------------- *)
